@@ -10,7 +10,7 @@ THEOREMS = ['Otel.C15.' + t for t in (
     'gen_baggage', 'urlEncodeByte_spec', 'urlDecode_eq', 'decode_never_oob', 'urlDecode_urlEncode', 'pctDecode_pctEncode',
     'set_eq', 'delete_eq', 'set_replaces', 'set_invalid_copy', 'delete_removes', 'set_delete_pure',
     'parseMember_eq', 'fromHeader_eq', 'fromHeader_never_oob', 'fromHeader_limits', 'fromHeader_only_valid',
-    'member_roundtrip', 'fromHeader_toHeader', 'built_entries', 'fromHeader_toHeader_built',
+    'member_roundtrip', 'toHeader_spec', 'fromHeader_toHeader', 'built_entries', 'fromHeader_toHeader_built',
     'fromHeader_toHeader_trailing_space_witness', 'fromHeader_toHeader_comma_in_metadata_witness',
     'toHeader_eq_nil_iff', 'baggage_extract_eq', 'extract_empty_leaves_context', 'extract_installs_parsed', 'baggage_inject_eq',
     'baggage_propagator_roundtrip', 'composite_inject_eq_foldl', 'composite_extract_eq_foldl', 'composite_empty_identity',
@@ -306,7 +306,7 @@ def generate(rng, tier):
     big = tier == 'thorough'
     out = []
     # ---- Set/Delete/Get/ToHeader/round-trip histories
-    for _ in range(40000 if big else 2500):
+    for _ in range(120000 if big else 2500):
         out.append(Case(gen_sequence(rng, rng.randrange(2, 25)), H, ('sequence',)))
     # ---- every printable byte in key position and in value position (and in metadata)
     for b in PRINTABLE:
@@ -350,10 +350,10 @@ def generate(rng, tier):
         out.append(Case(f'bg set 0 {hx(b"k")} {hx(b"v" * (sz - 1))} ; set 1 {hx(b"z")} {hx(b"2")} ; rt 2', H, ('limits', 'member-size')))
         out.append(Case(f'bg set 0 {hx(b"k")} {hx(b" " * ((sz - 1) // 3))} ; rt 1', H, ('limits', 'member-size')))
     # ---- headers: mostly valid, and mutations
-    for _ in range(60000 if big else 3000):
+    for _ in range(200000 if big else 3000):
         h = rand_header(rng)
         out.append(Case(f'bg from {hx(h)} ; hdr 1 ; rt 1', H, ('header', 'mostly-valid')))
-    for _ in range(60000 if big else 3000):
+    for _ in range(200000 if big else 3000):
         h = mutate(rng, rand_header(rng))
         out.append(Case(f'bg from {hx(h)} ; hdr 1', H, ('header', 'mutation')))
     for n in range(0, 60):
